@@ -21,7 +21,7 @@ ASSUMPTIONS = ["set/reset given as plain signals are driven with 0/1 only (what 
 
 
 def budget(tier):
-    return {"examples": 3200 if tier == "quick" else 24000, "wall_s": 110 if tier == "quick" else 1500}
+    return {"examples": 3200 if tier == "quick" else 24000, "wall_s": 110 if tier == "quick" else 900}
 
 
 @st.composite
